@@ -26,6 +26,17 @@ def vkey_of(case: dict) -> dict:
     }
 
 
+def _unreproduced_verdict(unreproduced, viol_lines):
+    """Differences seen inside the exploring process that do not replay in a brand-new
+    interpreter are not violations of this property (they point to history dependence
+    inside one process - a C14 matter - or to harness nondeterminism).  They are reported;
+    if nothing else was confirmed the run has no verdict (exit 2)."""
+    for u in unreproduced:
+        log(f"  NOT-REPRODUCED in cold interpreters (no verdict from it): {u}")
+    if unreproduced and not viol_lines:
+        raise HarnessError(f"{len(unreproduced)} in-process difference(s) did not replay in cold interpreters: {unreproduced[:3]}")
+
+
 def replay_file(path: str) -> int:
     from sim.zygote import cold_call
 
@@ -129,6 +140,7 @@ def run_check(tier: str, seed: int, runs: int | None = None, parallel: int | Non
 
         exit_code = EXIT_OK
         seen = set()
+        unreproduced = []
         for i, v in found:
             key = vkey_of(v)
             if jdump(key) in seen:
@@ -148,11 +160,13 @@ def run_check(tier: str, seed: int, runs: int | None = None, parallel: int | Non
                 rep = engine.cold("sim.c01", "replay_case", case, hashseed=engine.slots[i % len(engine.slots)].S.hashseed)
                 confirms.append(case["node"] in rep["violating"])
             if not all(confirms):
-                raise HarnessError(f"C01 violation of run {i} (node {case['node']}) does not replay in cold interpreters: {confirms}")
+                unreproduced.append(f"run {i} node {case['node']}: {confirms}")
+                continue
             path = write_replay(PROP, seed, f"{i}-{len(viol_lines)}", {"hashseed": engine.slots[i % len(engine.slots)].S.hashseed, "case": case, "violation_key": key, "report": v.get("report"), "family": v.get("family"), "original_rows": v.get("original_rows"), "minimised_rows": len(case["cols"]["p_id"]), "shrink_candidates": v.get("shrink_candidates"), "replay_cmd": f"./check replay replays/{PROP}-{seed}-{i}-{len(viol_lines)}.json"})
             viol_lines.append(f"VIOLATION property={PROP} replay={path}")
             log(f"  violation: node={case['node']} rows={len(case['cols']['p_id'])} order={case['variant']['order']} detail={jdump((v.get('report') or {}).get('detail', {}).get(case['node']))[:400]}")
             exit_code = EXIT_VIOLATION
+        _unreproduced_verdict(unreproduced, viol_lines)
     finally:
         engine.close()
 
